@@ -56,7 +56,7 @@ CHECKS = {
    design="§4 C09"),
  "C11": dict(level="model_checking", engine="E1 kani/cbmc with intrinsic stubs",
    technique="one Kani harness per kernel and buffer length over the real octets.rs kernels (AVX-512, AVX2, SSSE3, portable; binary FMA), symbolic contents/scalars/bit vectors, exact heap allocations; pshufb/bextr/maskz-mov modelled by stubs validated against the host CPU; result compared with the polynomial definition of GF(256)",
-   text="For each of the 14 x86-64 kernels and the 4 public entry points (no_std dispatch): every byte of the result equals the element-wise field operation for all contents; add and binary-FMA kernels for all 256 scalars at every listed length (0..65 boundary set, thorough 0..136); table kernels (mul, fma) at the boundary lengths of their vector width with a fixed scalar plus 16-value scalar slices at 'one vector + tail' (thorough: all 16 slices = all scalars, lengths 0..9, V-1..V+1, 2V-1..2V+1).",
+   text="For each of the 14 x86-64 kernels and the 4 public entry points (no_std dispatch): every byte of the result equals the element-wise field operation for all contents; add and binary-FMA kernels for all 256 scalars at every listed length (0..65 boundary set and two-iteration lengths); table kernels (mul, fma) at the boundary lengths of their vector width with a fixed scalar plus 16-value scalar slices at 'one vector + tail' (thorough: 4 of the 16 slices, a second fixed scalar, a few more lengths).",
    note="Trusted: the stub models of _mm*_shuffle_epi8, _bextr2_u32, _mm512_maskz_mov_epi8; Kani has no alignment faults (unaligned loads are used by the kernels); run-time dispatch is not executed; NEON kernels are not compiled here; the lengths x scalars product of table kernels is covered per dimension, not jointly.",
    design="§4 C11"),
  "C12": dict(level="model_checking", engine="E1 kani/cbmc",
